@@ -127,8 +127,10 @@ func ruleExecuteThenClean(fnNames ...string) ruleFn {
 	}
 }
 
-// rulePrepareResponse: subscription events — the upstream response is scrubbed before it is
-// forwarded, and events that need stitching go through executorFn.
+// rulePrepareResponse: subscription events — whatever prepareResponse returns carries scrubbed
+// data: the upstream response itself after Clean(resp.Data), or a new Response whose Data is
+// the result of the per-event executor (scrubbed there, R5.clean on executorFn), the upstream
+// data after Clean(resp.Data), or nothing.
 func rulePrepareResponse(r *Run) {
 	const rule = "R5.clean"
 	name := "pebbles.(*subscriptionEntry).prepareResponse"
@@ -137,32 +139,139 @@ func rulePrepareResponse(r *Run) {
 		return
 	}
 	resp := fn.Params[1]
-	n := 0
-	for _, ret := range returnsOf(fn) {
-		v := unwrap(retVals(ret)[0])
-		if v != ssa.Value(resp) {
-			continue
+	isRespData := func(v ssa.Value) bool {
+		ld, ok := unwrap(v).(*ssa.UnOp)
+		if !ok || ld.Op != token.MUL {
+			return false
 		}
-		n++
-		dom := false
+		fa, ok := ld.X.(*ssa.FieldAddr)
+		return ok && fa.X == ssa.Value(resp) && fieldOf(fa) != nil && fieldOf(fa).Name() == "Data"
+	}
+	// Clean(resp.Data) dominating at: the map is scrubbed in place, so every later read of
+	// resp.Data sees the scrubbed map
+	cleanedBefore := func(at ssa.Instruction) bool {
 		for _, ins := range allInstrs(fn) {
 			ci, ok := isCleanCall(ins)
 			if !ok || len(ci.Common().Args) < 2 {
 				continue
 			}
-			if ld, ok := unwrap(ci.Common().Args[1]).(*ssa.UnOp); ok && ld.Op == token.MUL {
-				if fa, ok := ld.X.(*ssa.FieldAddr); ok && fa.X == ssa.Value(resp) && fieldOf(fa) != nil && fieldOf(fa).Name() == "Data" && instrDominates(ci, ret) {
-					dom = true
-				}
+			if isRespData(ci.Common().Args[1]) && instrDominates(ci, at) {
+				return true
 			}
 		}
-		if dom {
-			r.OK(rule, name, "upstream response forwarded", r.P.pos(retPos(ret)), "Clean(resp.Data) dominates the return of the upstream response")
+		return false
+	}
+	execFns := map[*ssa.Function]bool{}
+	for _, f := range r.RoleFuncs("executorFn") {
+		execFns[f] = true
+	}
+	// fromExecutor: v is the data result of a call that can only run a per-event executor
+	fromExecutor := func(v ssa.Value) bool {
+		ex, ok := unwrap(v).(*ssa.Extract)
+		if !ok || ex.Index != 0 {
+			return false
+		}
+		call, ok := ex.Tuple.(*ssa.Call)
+		if !ok {
+			return false
+		}
+		n := 0
+		for _, e := range r.P.CG.Out[fn] {
+			if e.Site == ssa.CallInstruction(call) {
+				if !execFns[e.Callee] {
+					return false
+				}
+				n++
+			}
+		}
+		if _, unresolved := r.P.CG.Unresolved[call]; unresolved {
+			return false
+		}
+		return n > 0
+	}
+	var dataOK func(v ssa.Value, at ssa.Instruction, depth int) (bool, string)
+	dataOK = func(v ssa.Value, at ssa.Instruction, depth int) (bool, string) {
+		v = unwrap(v)
+		switch {
+		case isNilConst(v):
+			return true, "no data"
+		case fromExecutor(v):
+			return true, "data produced by the per-event executor, which scrubs what it returns"
+		case isRespData(v):
+			if cleanedBefore(at) {
+				return true, "Clean(resp.Data) dominates this return"
+			}
+			return false, ""
+		}
+		if p, ok := v.(*ssa.Phi); ok && depth < 4 {
+			for _, e := range p.Edges {
+				if ok, _ := dataOK(e, at, depth+1); !ok {
+					return false, ""
+				}
+			}
+			return true, "every alternative is scrubbed data"
+		}
+		return false, ""
+	}
+	n := 0
+	for _, ret := range returnsOf(fn) {
+		var cands []ssa.Value
+		if p, ok := retVals(ret)[0].(*ssa.Phi); ok {
+			cands = append(cands, p.Edges...)
 		} else {
-			r.Bad(rule, name, "upstream response forwarded", r.P.pos(retPos(ret)), "an upstream event is forwarded to the client without ScrubFields.Clean on its data")
+			cands = []ssa.Value{retVals(ret)[0]}
+		}
+		for _, v := range cands {
+			v = unwrap(v)
+			site := r.P.pos(retPos(ret))
+			switch x := v.(type) {
+			case *ssa.Parameter:
+				if x != resp {
+					r.Bad(rule, name, "response returned", site, "prepareResponse returns something the rule cannot trace to scrubbed data")
+					continue
+				}
+				n++
+				r.Check(cleanedBefore(ret), rule, name, "upstream response forwarded", site,
+					"Clean(resp.Data) dominates the return of the upstream response",
+					"an upstream event is forwarded to the client without ScrubFields.Clean on its data")
+			case *ssa.Alloc:
+				// a Response built here: what is stored into its Data field
+				n++
+				ok, why := true, "the new Response carries no data"
+				for _, ins := range allInstrs(fn) {
+					st, isSt := ins.(*ssa.Store)
+					if !isSt {
+						continue
+					}
+					fa, isFa := st.Addr.(*ssa.FieldAddr)
+					if !isFa || fa.X != ssa.Value(x) {
+						if isSt && st.Addr == ssa.Value(x) {
+							// `*new = *resp`: a whole-struct copy
+							ok, why = cleanedBefore(ret), "copy of the upstream response after Clean(resp.Data)"
+						}
+						continue
+					}
+					if fieldOf(fa) == nil || fieldOf(fa).Name() != "Data" {
+						continue
+					}
+					if o, w := dataOK(st.Val, ret, 0); o {
+						why = w
+					} else {
+						ok = false
+					}
+				}
+				r.Check(ok, rule, name, "new response returned", site,
+					"the Data of the Response built here is scrubbed: "+why,
+					"prepareResponse returns a new Response whose Data is the upstream event's data (or something else the rule cannot trace to the per-event executor) without ScrubFields.Clean on every path: helper id/__typename fields fetched for stitching reach the subscriber")
+			default:
+				if isNilConst(v) {
+					continue
+				}
+				r.Bad(rule, name, "response returned", site, "prepareResponse returns something the rule cannot trace to scrubbed data ("+v.String()+")")
+			}
 		}
 	}
-	r.AtLeast(rule, "returns of the upstream response in prepareResponse", n, 1)
+	r.AtLeast(rule, "returns of prepareResponse", n, 1)
 }
 
 // ruleRespondOnce: every path through queryHandler writes the response exactly once. A call of
